@@ -18,6 +18,27 @@ Binding (specs/TraceC03.tla judges everything the real code produced):
          line L, with a stand-alone disable/enable pair around L, with an open stand-alone
          disable before L, and along silencing chains (errors silenced one after another);
          TLC judges errors_after = errors_before minus the target and pyi_after = pyi_before.
+
+Strengthening (after seeded changes):
+ * raised errors: the model has ErrorLog.error as three actions (ErrCreate: the error sits on
+   the line of the executing opcode; ErrLine: the caller's explicit `line=`; ErrFilterAdd:
+   the Director's filter decides on the CURRENT line).  Ring 2 raises errors [name, op, xl,
+   ret] through the real VmErrorLog.error (a stack whose top opcode is on line op, line=xl)
+   with the real filter installed; TraceC03 raises the same errors with the spec's actions and
+   judges: logged iff the ASKED line carries no directive.  Ring 3 has programs with relocated
+   errors (incomplete-match: detected behind the match block, reported at the `match` line),
+   records the detecting opcode's line of every reported error (a wrapper around
+   Error.set_line in the worker processes) and adds the placement "opline": a disable on the
+   detecting line must not touch the relocated error.
+ * error-class tables: DirectivesOps.tla holds the tables _FUNCTION_CALL_ERRORS and
+   _ALL_ADJUSTABLE_ERRORS of the pinned commit; the model constants are ASSUMEd to be their
+   restriction to the names in play.  Ring 2 "alphabet": TLC places ONE directive naming every
+   error class pytype knows on every line of the skeletons; every class is queried on every
+   line.  The tables imported from the code are a recorded case ("tables") judged against the
+   pinned ones.  Ring 3 has multi-line statements / calls with two errors of a class outside
+   the tables (module-attr); the attribution of a lost error to the known finding
+   "continuation-line directive also silences the start line" is computed by TraceC03 from the
+   pinned table (a class outside it is never attributed).
 """
 import argparse
 import ast
@@ -36,11 +57,18 @@ PID = "C03"
 FN = "c03_input.py"
 W, B, N, A, O = ("wrong-arg-types", "bad-return-type", "name-error", "attribute-error",
                  "import-error")
-# directors._FUNCTION_CALL_ERRORS / _ALL_ADJUSTABLE_ERRORS restricted to the names in play
+M, IM = "module-attr", "incomplete-match"
+# directors._FUNCTION_CALL_ERRORS / _ALL_ADJUSTABLE_ERRORS at the pinned commit.  These copies only
+# serve to write TLC configurations and to word violation keys; the authoritative tables are
+# PinnedFuncCallErrs / PinnedAdjustErrs in specs/DirectivesOps.tla, and every TLC run checks
+# (ASSUME PinnedTables) that the configuration is the spec's table restricted to its names.
+PIN_FC = ["attribute-error", "duplicate-keyword", "invalid-annotation", "missing-parameter",
+          "not-instantiable", "wrong-arg-count", "wrong-arg-types", "wrong-keyword-args",
+          "unsupported-operands"]
+PIN_ADJ = PIN_FC + ["annotation-type-mismatch", "bad-return-type", "bad-yield-annotation",
+                    "container-type-mismatch", "not-supported-yet", "signature-mismatch"]
 NAMES_ALL = [W, B, N, A]
-FUNC_CALL = [W, A]
-ADJUST = [W, A, B]
-KEYS = NAMES_ALL + ["*", "ignore"]
+ADJUST = PIN_ADJ
 
 
 def tla_set(xs):
@@ -51,11 +79,14 @@ def model_cfg(**kw):
   d = dict(Mode='"files"', MaxLines=4, MaxStmts=2, MaxCalls=1, MaxFuncs=0, MaxRets=0, MaxPlain=0,
            MaxComments=2, MaxSameLine=2, WithStar="FALSE", WithGlobal="FALSE",
            TrailEnable="TRUE", DefsAt="{}", LsMaxLine=2, LsMaxOps=4, CheckFrame="TRUE",
-           Export='"none"', Names=tla_set([W, N]), FuncCallErrs=tla_set([W]),
-           AdjustErrs=tla_set([W]))
+           Export='"none"', NameSets='"single"', MaxErrs=0)
   d.update(kw)
+  names = d.pop("NAMES", [W, N])
+  d.update(Names=tla_set(names), FuncCallErrs=tla_set([x for x in names if x in PIN_FC]),
+           AdjustErrs=tla_set([x for x in names if x in PIN_ADJ]))
   invs = d.pop("INVARIANTS", ["TypeOK", "DirInvMeaning", "DirInvRun", "DirInvFilter",
-                              "DirInvException", "DirInvRangesOnly", "DirInvFrame", "LsInv"])
+                              "DirInvException", "DirInvRangesOnly", "DirInvFrame", "LsInv",
+                              "LogInv"])
   view = d.pop("VIEW", None)
   ac = d.pop("AC", None)
   lines = ["SPECIFICATION Spec", "CONSTANTS"] + [" %s = %s" % kv for kv in d.items()]
@@ -67,11 +98,14 @@ def model_cfg(**kw):
   return "\n".join(lines) + "\n"
 
 
-def trace_cfg():
+def trace_cfg(names=None):
+  names = names or NAMES_ALL
   d = dict(Mode='"trace"', MaxLines=0, MaxStmts=0, MaxCalls=0, MaxFuncs=0, MaxRets=0, MaxPlain=0,
            MaxComments=0, MaxSameLine=0, WithStar="TRUE", WithGlobal="TRUE", TrailEnable="TRUE",
            DefsAt="{}", LsMaxLine=0, LsMaxOps=1000000, CheckFrame="FALSE", Export='"none"',
-           Names=tla_set(NAMES_ALL), FuncCallErrs=tla_set(FUNC_CALL), AdjustErrs=tla_set(ADJUST))
+           NameSets='"single"', MaxErrs=1000000,
+           Names=tla_set(names), FuncCallErrs=tla_set([x for x in names if x in PIN_FC]),
+           AdjustErrs=tla_set([x for x in names if x in PIN_ADJ]))
   lines = ["INIT TInit", "NEXT TNext", "CONSTANTS"] + [" %s = %s" % kv for kv in d.items()]
   lines += ["INVARIANT Ok", "POSTCONDITION Done"]
   return "\n".join(lines) + "\n"
@@ -93,7 +127,7 @@ def run_model(label, run, workers=16, **kw):
   return r
 
 
-def validate(run, cases, label, shards=1):
+def validate(run, cases, label, shards=1, names=None):
   """Let TLC judge recorded cases.  Returns (bads, divs, obs): lists of decoded records with
   the case index (0-based) in field idx."""
   if not cases:
@@ -104,7 +138,7 @@ def validate(run, cases, label, shards=1):
 
   def one(off):
     part = cases[off:off + step]
-    nv, bad, r = tlc.validate_cases("TraceC03", part, cfg=trace_cfg(), timeout=6000, heap="4g")
+    nv, bad, r = tlc.validate_cases("TraceC03", part, cfg=trace_cfg(names), timeout=6000, heap="4g")
     common.require(bad is None, "TraceC03 invariant cannot fail (verdicts are printed)")
     common.require(nv == len(part), "TraceC03 did not consume all cases")
     out = []
@@ -352,10 +386,57 @@ class _PP:
   """Stands in for the pretty printer (never used for directive errors)."""
 
 
-def observe_director(src, f, qnames):
+class _Code:
+  filename = FN
+  name = "<module>"
+
+
+class CALL:   # the class NAME is what Error.with_stack records as opcode_name
+  code = _Code()
+  col = endcol = 0
+
+  def __init__(self, line):
+    self.line = self.endline = line
+
+
+class RETURN_VALUE(CALL):
+  pass
+
+
+def raise_errors(d, elog, lq):
+  """Raise the errors lq = [name, op, xl, ret] through the real ErrorLog.error exactly as the VM
+  does (vm.py: errorlog.set_error_filter(director.filter_error); a frame stack whose top opcode
+  sits on line op; `line=xl` as VmErrorLog.incomplete_match passes it).  Returns
+  [logged?, final line of the error object] per raise (the error object is captured by a
+  pass-through wrapper around the filter)."""
+  from pytype import state
+  from pytype.errors import errors
+  seen = []
+
+  def filt(e):
+    seen.append(e)
+    return d.filter_error(e)
+  elog.set_error_filter(filt)
+  out = []
+  for name, op, xl, ret in lq:
+    n0 = len(elog)
+    del seen[:]
+    stack = [state.SimpleFrame((RETURN_VALUE if ret else CALL)(op))]
+    with errors._CURRENT_ERROR_NAME.bind(name):  # pylint: disable=protected-access
+      elog.error(stack, "synthetic", line=xl or None)
+    common.require(len(seen) == 1 and seen[0].name == name and len(elog) - n0 in (0, 1),
+                   "ErrorLog.error did not consult the filter exactly once")
+    logged = len(elog) == n0 + 1
+    common.require(not logged or elog[n0] is seen[0], "another error object was logged")
+    out.append([logged, seen[0].line])
+  return out
+
+
+def observe_director(src, f, qnames, lq=(), keys=None):
   """Build the real Director as vm.py does and interrogate it."""
   from pytype.directors import directors
   from pytype.errors import errors
+  keys = keys or NAMES_ALL
   tree = directors.parse_src(src, (3, 12))
   elog = errors.VmErrorLog(_PP(), src)
   d = directors.Director(tree, elog, FN, list(f["glob"]))
@@ -372,7 +453,7 @@ def observe_director(src, f, qnames):
         qs.append([name, line, ret])
         obs.append([bool(rep), e.line])
   sets = {}
-  for k in KEYS:
+  for k in list(keys) + ["*", "ignore"]:
     ls = d._ignore if k == "ignore" else d._disables[k]  # pylint: disable=protected-access
     sets[k] = {"on": sorted(l for l, m in ls.lines.items() if m),
                "off": sorted(l for l, m in ls.lines.items() if not m),
@@ -385,7 +466,8 @@ def observe_director(src, f, qnames):
       late.append(["ignore" if key == "Type checking" else key, e.line])
     else:
       other.append([e.name, e.line, e.message])
-  return {"qs": qs, "obs": obs, "sets": sets,
+  lq = [list(u) for u in lq]
+  return {"qs": qs, "obs": obs, "sets": sets, "lq": lq, "lobs": raise_errors(d, elog, lq),
           "f2e": sorted([a, b] for a, b in fr._start_to_end.items()),  # pylint: disable=protected-access
           "e2s": sorted([a, b] for a, b in fr._end_to_start.items()),  # pylint: disable=protected-access
           "late": sorted(late), "other": other}
@@ -401,7 +483,7 @@ def ring2(run, thorough):
       json.dump([sk["f"] for sk in SKELETONS], fh)
     t = time.time()
     kw = dict(Mode='"skeleton"', MaxComments=3 if thorough else 2, MaxSameLine=2, WithStar="TRUE",
-              Names=tla_set([W, B, N]), FuncCallErrs=tla_set([W]), AdjustErrs=tla_set([W, B]))
+              NAMES=[W, B, N])
     # the model's own invariants on every placement (all workers) ...
     rm = tlc.run("Directives",
                  model_cfg(CheckFrame="TRUE" if thorough else "FALSE",
@@ -430,51 +512,185 @@ def ring2(run, thorough):
                                                                        time.time() - t), flush=True)
   rng = random.Random(run.seed)
   run.put("placements_exported", len(files))
+  small = [f for f in files if len(f["cs"]) <= 1]
+  big = [f for f in files if len(f["cs"]) > 1]
+  rng.shuffle(big)
   if not thorough and len(files) > 5000:
     # keep every placement of <= 1 directive and a seeded sample of the pairs
-    small = [f for f in files if len(f["cs"]) <= 1]
-    big = [f for f in files if len(f["cs"]) > 1]
-    rng.shuffle(big)
     files = small + big[:5000 - len(small)]
-  return judge_dir(run, [(SKELETONS[f["id"] - 1], f) for f in files], "ring2-director")
+  else:
+    files = small + big
+  # errors raised through ErrorLog.error: on every placement of <= 1 directive and on a seeded
+  # sample of the pairs
+  nlog = len(small) + (1500 if thorough else 300)
+  raises = {id(f): choose_raises(rng, f, 36 if thorough else 24) for f in files[:nlog]}
+  cases = judge_dir(run, [(SKELETONS[f["id"] - 1], f) for f in files], "ring2-director",
+                    raises=raises)
+  nrel = sum(1 for c in cases for u in c["lq"] if u[2] and u[2] != u[1])
+  nsup = sum(1 for c in cases for u, o in zip(c["lq"], c["lobs"])
+             if u[2] and u[2] != u[1] and not o[0])
+  run.add("errorlog_raises", sum(len(c["lq"]) for c in cases))
+  run.add("errorlog_raises_relocated", nrel)
+  run.add("errorlog_raises_relocated_suppressed", nsup)
+  common.require(nrel >= 2000 and nsup >= 200,
+                 "vacuity: %d relocated raises, %d of them suppressed" % (nrel, nsup))
+  cases += ring2_alphabet(run, skf_json=[sk["f"] for sk in SKELETONS])
+  return cases
 
 
-def judge_dir(run, pairs, label):
+def choose_raises(rng, f, n):
+  """Errors to raise on placement f: [name, op, xl, ret]; op = line of the executing opcode,
+  xl = explicit line (0: none).  Every (directive line, other line) combination in both roles
+  for the names the directive can affect, in place raises on the directive lines, and a seeded
+  sample of the rest of the grid names x lines x (0 | lines)."""
+  lines = list(range(1, f["n"] + 1))
+  names = [W, B, N]
+  out = []
+  dl = sorted({c["line"] for c in f["cs"]})
+  st = sorted({r[0] for r in f["stmts"] + f["calls"]})
+  for l in dl:
+    for nm in names:
+      out.append([nm, l, 0, False])
+      for o in rng.sample(lines, min(3, len(lines))) + st[:2]:
+        if o != l:
+          out.append([nm, l, o, False])     # detected on the directive's line, reported elsewhere
+          out.append([nm, o, l, False])     # detected elsewhere, reported on the directive's line
+  if f["funcs"]:
+    for l in rng.sample(lines, 2):
+      out.append([B, l, 0, True])           # implicit / explicit return errors through the log
+  while len(out) < n:
+    op = rng.choice(lines)
+    out.append([rng.choice(names), op, rng.choice([0] + lines), False])
+  seen, res = set(), []
+  for u in out:
+    if tuple(u) not in seen:
+      seen.add(tuple(u))
+      res.append(u)
+  return res[:max(n, 8 * len(dl) * len(names))]
+
+
+def ring2_alphabet(run, skf_json):
+  """Every error class pytype knows, on every line: TLC places ONE directive that names the
+  whole alphabet (`# pytype: disable=a,b,c,...`); the Director's answer for every class on every
+  line is compared with the spec, whose classification of the classes (function-call /
+  adjustable) is the PINNED one.  The tables imported from the code are judged as a case of
+  their own."""
+  from pytype.directors import directors
+  from pytype.errors import errors
+  alphabet = sorted(errors._ERROR_NAMES)  # pylint: disable=protected-access
+  common.require(len(alphabet) >= 40 and M in alphabet and IM in alphabet,
+                 "error-class alphabet of the code: %d names" % len(alphabet))
+  tdir = tlc.scratch("c03-alpha")
+  try:
+    skf = os.path.join(tdir, "skeletons.json")
+    with open(skf, "w") as fh:
+      json.dump(skf_json, fh)
+    t = time.time()
+    r = tlc.run("Directives",
+                model_cfg(Mode='"skeleton"', MaxComments=1, MaxSameLine=1, WithStar="FALSE",
+                          TrailEnable="FALSE", NameSets='"all"', NAMES=alphabet, CheckFrame="FALSE",
+                          Export='"files"',
+                          INVARIANTS=["TypeOK", "DirInvMeaning", "DirInvRun", "DirInvException",
+                                      "DirInvRangesOnly", "ExportInv"]),
+                workers=1, timeout=6000, heap="8g", env={"SKEL_FILE": skf})
+  finally:
+    import shutil
+    shutil.rmtree(tdir, ignore_errors=True)
+  if r.violated:
+    raise common.Machinery("Directives.tla (alphabet): %s violated:\n%s" % (r.violated, r.error_trace[:4000]))
+  common.require(r.rc == 0, "TLC failed in alphabet mode:\n" + r.out[-2000:])
+  run.add("states", r.distinct)
+  run.add("transitions", r.generated)
+  run.put("states_alphabet", r.distinct)
+  # the tables only matter for trailing pytype directives
+  files = [f for f in r.cases if f["cs"] and f["cs"][0]["trail"] and f["cs"][0]["cmd"] == "disable"]
+  cont = sum(1 for f in files if any(st[0] < f["cs"][0]["line"] <= st[1] for st in f["stmts"]))
+  run.put("alphabet_classes", len(alphabet))
+  run.put("alphabet_placements", len(files))
+  run.put("alphabet_placements_on_continuation_lines", cont)
+  common.require(cont >= 20, "vacuity: %d alphabet placements on continuation lines" % cont)
+  print("  model alphabet: %d classes, %d states, %d placements (%d on continuation lines)  %.0fs"
+        % (len(alphabet), r.distinct, len(files), cont, time.time() - t), flush=True)
+  tables = {"kind": "tables",
+            "fc": sorted(directors._FUNCTION_CALL_ERRORS),      # pylint: disable=protected-access
+            "adj": sorted(directors._ALL_ADJUSTABLE_ERRORS)}    # pylint: disable=protected-access
+  return judge_dir(run, [(SKELETONS[f["id"] - 1], f) for f in files], "ring2-alphabet",
+                   names=alphabet, extra=[tables])
+
+
+def judge_dir(run, pairs, label, raises=None, names=None, extra=()):
   cases = []
+  raises = raises or {}
   for sk, f in pairs:
     src = render(sk, f["cs"])
     c = {"kind": "dir", "f": f, "skel": sk["name"], "src": src}
-    c.update(observe_director(src, f, [W, B, N, O]))
+    c.update(observe_director(src, f, (names or [W, B, N]) + [O], lq=raises.get(id(f), ()),
+                              keys=names))
     cases.append(c)
-  nq = sum(len(c["qs"]) for c in cases)
+  ndir = len(cases)
+  cases += list(extra)
+  dirs = cases[:ndir]
+  nq = sum(len(c["qs"]) for c in dirs)
   run.add("director_queries", nq)
-  run.add("director_suppressed_answers", sum(1 for c in cases for o in c["obs"] if not o[0]))
-  run.add("director_retargeted_answers", sum(1 for c in cases for q, o in zip(c["qs"], c["obs"])
+  run.add("director_suppressed_answers", sum(1 for c in dirs for o in c["obs"] if not o[0]))
+  run.add("director_retargeted_answers", sum(1 for c in dirs for q, o in zip(c["qs"], c["obs"])
                                              if o[1] != q[1]))
-  bads, divs, obs = validate(run, cases, label, shards=4 if len(cases) > 2000 else 1)
+  bads, divs, obs = validate(run, cases, label, shards=4 if len(cases) > 2000 else 1, names=names)
   run.add("director_cases_exception_observable", len(obs))
   for b in bads:
     c = cases[b["idx"]]
+    if c["kind"] == "tables":
+      for table, diff in b["fails"]:
+        run.violation("C03:adjustable-error-classes-changed",
+                      "the %s table of directors.py differs from the table of the pinned commit by %s: "
+                      "for the function-call / adjustable classes a trailing directive on a continuation "
+                      "line is ALSO registered on the first line of the statement / enclosing calls, so "
+                      "the set of classes for which a disable comment silences another line changed"
+                      % (table, sorted(diff)),
+                      {"ring": 2, "tables": {"fc": c["fc"], "adj": c["adj"]}, "table": table,
+                       "diff": sorted(diff)})
+      continue
     for clause, x in b["fails"]:
+      if clause.startswith("log-"):
+        u, o = c["lq"][x - 1], c["lobs"][x - 1]
+        kind = "relocated" if u[2] and u[2] != u[1] else "in-place"
+        run.violation("C03:errorlog:%s-suppression:%s" % (clause[4:], kind),
+                      "ErrorLog.error(%s detected at the opcode on line %d, line=%s%s) -> logged=%s on line %d; "
+                      "the directives on the line the error is reported at say otherwise; source:\n%s"
+                      % (u[0], u[1], u[2] or None, ", return opcode" if u[3] else "", o[0], o[1], c["src"]),
+                      {"ring": 2, "f": c["f"], "skel": c["skel"], "src": c["src"], "raise": u,
+                       "observed": o, "names": names or []})
+        continue
       q, o = c["qs"][x - 1], c["obs"][x - 1]
       kind = "adjustable" if q[0] in ADJUST else "plain"
       run.violation("C03:director:%s-suppression:%s" % (clause, kind),
                     "filter_error(%s at line %d%s) -> reported=%s at line %d, the directives say otherwise; source:\n%s"
                     % (q[0], q[1], ", return opcode" if q[2] else "", o[0], o[1], c["src"]),
-                    {"ring": 2, "f": c["f"], "skel": c["skel"], "src": c["src"], "query": q, "observed": o})
+                    {"ring": 2, "f": c["f"], "skel": c["skel"], "src": c["src"], "query": q, "observed": o,
+                     "names": names or []})
   for d in divs:
     c = cases[d["idx"]]
     run.diverge({"ring": 2, "skel": c["skel"], "src": c["src"], "divs": d["divs"][:6]})
-  if cases:
-    run.sample({"ring2": {"skel": cases[-1]["skel"], "src": cases[-1]["src"]}})
-  return cases
+  if dirs:
+    c = dirs[len(dirs) // 2]
+    run.sample({label: {"skel": c["skel"], "src": c["src"][:400], "raises": c["lq"][:4],
+                        "raise_outcomes": c["lobs"][:4]}})
+  return dirs
 
 
 # ------------------------------------------------------------------------------------------
 # ring 3: end to end
 
-PRELUDE = """from typing import Dict, List, Optional
+PRELUDE = """from typing import Dict, List, Literal, Optional
+import enum
 import os
+import sys
+
+
+class Colour(enum.Enum):
+  RED = 1
+  GREEN = 2
+  BLUE = 3
 
 
 def need_int(x: int, y: int = 0) -> int:
@@ -532,6 +748,25 @@ FRAGMENTS = [
     'ii{i} = need_str(need_int(\n    "a"))',
     'def jj{i}(b: Box) -> str:\n  if b.v:\n    return b.get(\n        "a")\n  return b.missing',
     'kk{i}: Dict[str, int] = {\n    "a": need_int(\n        "b"),\n    "c": "d".ee,\n}',
+    # relocated errors: incomplete-match is DETECTED at the first opcode behind the match block
+    # and REPORTED (explicit line=) at the line of the `match` keyword
+    'def ma{i}(c: Colour) -> str:\n  match c:\n    case Colour.RED:\n      return "r"\n    case Colour.GREEN:\n      return "g"\n  return "other"',
+    'def mb{i}(c: Colour) -> int:\n  match c:\n    case Colour.RED:\n      return 1\n  return need_int("s")',
+    'def mc{i}(c: Colour):\n  match c:\n    case Colour.RED:\n      x = 1\n    case Colour.GREEN:\n      x = 2',
+    'def md{i}(c: Colour,\n         d: Colour) -> int:\n  match (\n      c):\n    case Colour.RED:\n      return 1\n  match d:\n    case Colour.BLUE:\n      return 3\n  return 2',
+    'def me{i}(x: Literal["a", "b"]) -> int:\n  match x:\n    case "a":\n      return 1\n  return undefined_m{i}',
+    'match Colour.RED:\n  case Colour.BLUE:\n    pass\nmf{i} = 1 + "x"',
+    'class MG{i}:\n  def m(self, c: Colour) -> int:\n    match c:\n      case Colour.RED | Colour.GREEN:\n        return 1\n    return [need_int(\n        "s")]',
+    # two (or more) errors of a class OUTSIDE directors._FUNCTION_CALL_ERRORS /
+    # _ALL_ADJUSTABLE_ERRORS (module-attr, not-callable, name-error) in ONE multi-line statement /
+    # call, one of them on the first line of the statement or of an enclosing call
+    'na{i} = need_int(os.nope{i},\n               sys.nada{i})',
+    'nb{i} = [\n    os.one{i},\n    need_int(\n        sys.two{i}),\n]',
+    'def nc{i}():\n  return (os.uno{i},\n          sys.dos{i})',
+    'nd{i} = need_int(os.a{i} +\n                 need_int(sys.b{i},\n                          os.c{i}))',
+    'ne{i} = [need_str("a")(),\n         need_str("b")(\n         )]',
+    'nf{i} = (os.x{i},\n         undefined_p{i},\n         "s".zz,\n         sys.y{i})',
+    'def ng{i}(q: int) -> int:\n  if (os.p{i} or\n      sys.q{i}):\n    return need_int(sys.r{i},\n                    os.s{i})\n  return q',
 ]
 
 
@@ -541,6 +776,14 @@ PROBES = [
     PRELUDE + 'a = need_int("a",\n             need_int("b", 1))\n',
     PRELUDE + 'def f(x: int) -> str:\n  z = need_int(\n      "s")\n',
     PRELUDE + 'x = [\n    need_int(\n        need_str(need_int("a")),\n        "b".foo),\n]\n',
+    # relocated errors (see FRAGMENTS)
+    PRELUDE + 'def a(c: Colour) -> str:\n  match c:\n    case Colour.RED:\n      return "r"\n  return "o"\n\n\n'
+              'def b(c: Colour) -> int:\n  match c:\n    case Colour.RED:\n      return 1\n  return need_int("s")\n\n\n'
+              'def c(c: Colour):\n  match c:\n    case Colour.RED:\n      x = 1\n    case Colour.GREEN:\n      x = 2\n\n\n'
+              'match Colour.RED:\n  case Colour.BLUE:\n    pass\nd = "a".nope\n',
+    # two errors of a class outside the tables in one multi-line statement / call
+    PRELUDE + 'x = need_int(os.nope,\n             sys.nada)\n\n\ndef f():\n  return (os.uno,\n          sys.dos)\n\n\n'
+              'y = need_int(os.a +\n             need_int(sys.b,\n                      os.c))\n',
 ]
 
 
@@ -605,10 +848,38 @@ def split_error(e):
   return [e[0], e[1] or 0, head, frames]
 
 
+_HOOKED = []
+
+
+def install_hook():
+  """Record, on the error object, the line it was created on (= the line of the opcode that was
+  executing when pytype detected it) before the first set_line moves it.  A pass-through
+  wrapper in the harness process; /repo is not touched."""
+  if _HOOKED:
+    return
+  boot.boot()
+  from pytype.errors import errors
+  orig = errors.Error.set_line
+
+  def set_line(self, line):
+    if line != self._line and not hasattr(self, "_c03_op"):  # pylint: disable=protected-access
+      self._c03_op = self._line  # pylint: disable=protected-access
+    orig(self, line)
+  errors.Error.set_line = set_line
+  _HOOKED.append(True)
+
+
 def analyze_src(src):
+  """(outcome, [[name, line, message, traceback, op line]], pyi, exc)"""
   import pyt
-  r = pyt.analyze(src)
-  return (r["outcome"], [split_error(e) for e in r["errors"]], r["pyi"], r["exc"])
+  install_hook()
+  r = pyt.analyze(src, want_ast=True)
+  ops = {}
+  if "ret" in r:
+    for e in r["ret"].context.errorlog.unique_sorted_errors():
+      ops.setdefault((e.name, e.line, e.message), getattr(e, "_c03_op", e.line) or 0)
+  errs = [split_error(e) + [ops.get((e[0], e[1], e[2]), e[1] or 0)] for e in r["errors"]]
+  return (r["outcome"], errs, r["pyi"], r["exc"])
 
 
 def w_analyze(src):
@@ -636,6 +907,7 @@ def w_chain(args):
 
 def e2e_case(place, name, line, src0, src1, res0, res1, ins=(), origin=""):
   return {"kind": "e2e", "place": place, "name": name, "line": line,
+          "starts": sorted(enclosing_starts(src0, line)),
           "before": res0[1], "after": res1[1], "ins": list(ins),
           "pyi0": res0[2], "pyi1": res1[2], "out0": res0[0], "out1": res1[0],
           "defs": first_def(src0), "src0": src0, "src1": src1, "origin": origin,
@@ -672,8 +944,10 @@ def stmt_span(src, line):
   return best
 
 
-def classify(c, fails):
-  """Root-cause keys for the failing clauses of an end-to-end case: {clause: key}."""
+def classify(c, fails, start=()):
+  """Root-cause keys for the failing clauses of an end-to-end case: {clause: key}.  `start`: the
+  clauses TraceC03 (E2EAttr, pinned table of adjustable classes) attributes to the known
+  finding "a directive on a continuation line is also registered on the first line"."""
   place, name, line = c["place"], c["name"], c["line"]
   src0 = c["src0"]
   starts = enclosing_starts(src0, line)
@@ -681,8 +955,7 @@ def classify(c, fails):
   keys = {}
   for clause, items in fails.items():
     key = "C03:e2e:%s:%s" % (clause, place)
-    if clause == "lost" and place in ("disable", "ignore") and items and all(
-        l in starts and l < line and (place == "ignore" or e == name) for e, l in items):
+    if clause in start:
       key = K_START
     elif clause == "gained" and place in ("disable", "ignore") and items and all(
         l < line and l in starts and any(
@@ -707,7 +980,7 @@ def judge_e2e(run, cases, label):
   for b in bads:
     c = cases[b["idx"]]
     fails = {cl: [tuple(x) for x in items] for cl, items in b["fails"]}
-    keys = classify(c, fails)
+    keys = classify(c, fails, b.get("start", ()))
     for clause, items in fails.items():
       run.violation(keys[clause], "%s on line %d for %s (%s): clause '%s' fails for %s\n--- before\n%s\n--- after\n%s" % (
           c["place"], c["line"], c["name"], c["origin"], clause, items, c["src0"], c["src1"]),
@@ -720,7 +993,7 @@ def judge_e2e(run, cases, label):
 def ring3(run, thorough, nprog=None):
   import pyt
   rng = random.Random(run.seed * 7919 + 3)
-  nprog = nprog or (600 if thorough else 40)
+  nprog = nprog or (600 if thorough else 36)
   procs = 8
   progs = PROBES + [gen_program(rng, k) for k in range(nprog)]
   t = time.time()
@@ -753,6 +1026,13 @@ def _ring3(run, pool, progs, nprog, t):
       jobs.append(("pair", nm, ln, src, s1, ins, res))
       s1, ins = add_standalone(src, ln, nm, False)
       jobs.append(("open", nm, ln, src, s1, ins, res))
+      op = e[4]
+      if op and op != ln and op >= 1:
+        # a relocated error: detected while the opcode on line op executed, reported on line ln
+        run.add("e2e_relocated_errors")
+        run.add("e2e_relocated_" + nm)
+        if can_append(src, op):
+          jobs.append(("opline", nm, op, src, add_trailing(src, op, "# pytype: disable=" + nm), (), res))
   run.add("e2e_programs", len(progs))
   run.add("e2e_reported_errors", sum(len(r[1]) for r in base))
   common.require(len(jobs) >= 8 * nprog, "vacuity: only %d directive placements" % len(jobs))
@@ -781,6 +1061,19 @@ def _ring3(run, pool, progs, nprog, t):
   run.add("e2e_cases_on_continuation_lines", multi)
   common.require(multi >= nprog // 2, "vacuity: few directives on continuation lines")
   common.require(nchain >= nprog, "vacuity: few chain steps")
+  # the families added after the seeded changes
+  reloc = sum(1 for c in cases if c["place"] in ("disable", "ignore") and any(
+      e[0] == c["name"] and e[1] == c["line"] and e[4] != e[1] and e[0] != B for e in c["before"]))
+  opl = sum(1 for c in cases if c["place"] == "opline")
+  twin = sum(1 for c in cases if c["place"] == "disable" and c["name"] not in PIN_ADJ and any(
+      e[0] == c["name"] and e[1] < c["line"] and e[1] in c["starts"] for e in c["before"]))
+  run.add("e2e_cases_on_explicitly_relocated_errors", reloc)
+  run.add("e2e_cases_opline", opl)
+  run.add("e2e_cases_plain_class_with_same_class_error_on_start_line", twin)
+  common.require(reloc >= 12 and opl >= 6,
+                 "vacuity: %d directive placements on relocated errors, %d on their detecting lines" % (reloc, opl))
+  common.require(twin >= 6, "vacuity: %d placements of a plain-class disable on a continuation line "
+                 "with an error of the same class on the first line" % twin)
   print("  ring 3: %d programs, %d pytype runs, %d cases  %.0fs" % (
       len(progs), run.cov["e2e_pytype_runs"], len(cases), time.time() - t), flush=True)
   judge_e2e(run, cases, "ring3-e2e")
@@ -794,7 +1087,7 @@ def _ring3(run, pool, progs, nprog, t):
 # ------------------------------------------------------------------------------------------
 # the model alone: every file within the bounds
 
-BRT_ONLY = dict(Names=tla_set([B]), FuncCallErrs="{}", AdjustErrs=tla_set([B]))
+BRT_ONLY = dict(NAMES=[B])
 
 
 def model(run, thorough):
@@ -814,6 +1107,16 @@ def model(run, thorough):
               MaxComments=1, **BRT_ONLY)
     run_model("files-global", run, MaxLines=3, MaxStmts=2, MaxCalls=1, MaxComments=2,
               WithGlobal="TRUE", WithStar="TRUE", DefsAt="{2}", MaxPlain=1)
+  # ErrorLog.error on every file: every error [name, op, xl, ret] raised after the Director is
+  # built, three actions per raise; LogInv
+  if thorough:
+    run_model("files-errlog", run, MaxLines=4, MaxStmts=2, MaxCalls=1, MaxFuncs=1, MaxRets=1,
+              MaxComments=2, MaxErrs=1, CheckFrame="FALSE", NAMES=[B, N],
+              INVARIANTS=["TypeOK", "DirInvRun", "LogInv"])
+  else:
+    run_model("files-errlog", run, MaxLines=3, MaxStmts=2, MaxCalls=1, MaxFuncs=1, MaxRets=1,
+              MaxComments=1, MaxErrs=1, CheckFrame="FALSE", NAMES=[B, N],
+              INVARIANTS=["TypeOK", "DirInvRun", "LogInv"])
   run.put("exhaustive", True)
   # which placements of ONE more trailing directive have an effect beyond their own line
   # (the two exceptions the frame condition spells out)
@@ -845,9 +1148,16 @@ def replay(run, path):
     bads, divs, _ = validate(run, cases, "replay")
     for b in bads:
       run.violation("C03:lineset:membership", "replayed: %s" % b["fails"], case)
+  elif ring == 2 and "tables" in case:
+    from pytype.directors import directors
+    judge_dir(run, [], "replay", extra=[{
+        "kind": "tables", "fc": sorted(directors._FUNCTION_CALL_ERRORS),      # pylint: disable=protected-access
+        "adj": sorted(directors._ALL_ADJUSTABLE_ERRORS)}])                    # pylint: disable=protected-access
   elif ring == 2:
     sk = [x for x in SKELETONS if x["name"] == case["skel"]][0]
-    judge_dir(run, [(sk, case["f"])], "replay")
+    f = case["f"]
+    judge_dir(run, [(sk, f)], "replay", raises={id(f): [case["raise"]]} if "raise" in case else None,
+              names=case.get("names") or None)
   elif ring == 3:
     r0, r1 = analyze_src(case["src0"]), analyze_src(case["src1"])
     c = e2e_case(case["place"], case["name"], case["line"], case["src0"], case["src1"], r0, r1,
